@@ -303,3 +303,7 @@ func (c *Ctx) WriteGen(name, content string) {
 		panic(err)
 	}
 }
+
+// MixL is the cheap variant for large enumerations (N.land is ~1000x faster than N.modulo
+// under vm_compute): h' = (h*31 + x + 1) land (2^31-1).
+func MixL(h, x uint64) uint64 { return (h*31 + x + 1) & 0x7fffffff }
